@@ -143,7 +143,18 @@ def path(ctx, cfg):
         f0 = lambda k: 1.0 / (1 + k)
         f1 = lambda k: 0.5 + (k % 7)
         params = {JN.MOTIF_SIZES: [2, 3], JN.ARR_FP: [f0, f1], JN.LOW_HIGH_DEGREE_BOUND: [(0, 320), (1, 322)]}
-        obj = ctx.guard("loader-raised", JointDegreeMarginal, params)
+        from symx.core import PathAbort
+
+        ctx.draw_budget = ctx.draws + 8  # direct mode needs no randomness at all: a handful of draws is already a finding
+        try:
+            obj = ctx.guard("loader-raised", JointDegreeMarginal, params)
+        except PathAbort as a:
+            if a.reason != "budget":
+                raise
+            ctx.draw_budget = None
+            ctx.fail("marginal-support", "direct mode on a 320 x 321 box asked the RNG for samples (use_sampling is False)", sig="direct-mode-uses-rng")
+            return
+        ctx.draw_budget = None
         jdd = obj.jdd
         ctx.require(len(ctx.rng_log) == 0, "marginal-support", f"direct mode drew random numbers: {[c['fn'] for c in ctx.rng_log][:5]}", sig="direct-mode-uses-rng")
         n0, n1 = 320, 321
